@@ -27,11 +27,34 @@ def search_counterexample(idx, lem, seed, n=600):
     fmt = outf + ' (cx_l IEEEr %s) ++ [-777] ++ ' + outf + ' (cx_r IEEEr %s)'
     terms = [fmt % (' '.join(lit(k, v) for (_, k), v in zip(lem.vars, a)), ' '.join(lit(k, v) for (_, k), v in zip(lem.vars, a))) for a in assigns]
     res, errs = core.eval_model(terms, 'search_' + lem.name, imports=imports, chunk=100)
-    for a, r in zip(assigns, res):
-        if r is None: continue
+    # the implementation itself on the same inputs (when the function has a public entry point)
+    crate = None; m = lem.meta; f = None
+    try:
+        if m.get('cfg') and m.get('did') and ty != 'bool' and not m.get('fixed'):
+            f = next(x for x in idx.fns(m['cfg']) if x['i'] == m['did'])
+            tys = ([f['self']] if f['has_self'] else []) + [p[1] for p in f['params']]
+            lines = []
+            for a in assigns:
+                vals = iter(a); words = [w for t in tys for w in core.words_from_values(idx.structs(m['cfg']), idx.enums(m['cfg']), t, vals)]
+                lines.append('%d %s' % (m['did'], ' '.join('%x' % (w & core.M64) for w in words)))
+            crate = core.run_driver(core.build_driver(m['cfg']), lines)
+            if len(crate) != len(assigns): crate = None
+    except Exception as e:
+        errs = list(errs) + ['crate search skipped: %r' % e]; crate = None
+    first_model = None
+    for j, (a, r) in enumerate(zip(assigns, res)):
+        if r is None or -777 not in r: continue
         k = r.index(-777); l, rr = r[:k], r[k + 1:]
-        if canon_words(l) != canon_words(rr): return {'assignment': {n: ('%#x' % v if kk in ('f32', 'f64') else v) for (n, kk), v in zip(lem.vars, a)}, 'model_lhs': l, 'spec_rhs': rr}, errs
-    return None, errs
+        asg = {n: ('%#x' % v if kk in ('f32', 'f64') else v) for (n, kk), v in zip(lem.vars, a)}
+        if crate is not None and f is not None:
+            ret = f['self'] if (f['self_mut'] and f['ret'] == 'unit') else f['ret']
+            try:
+                cs = core.canon_model(idx.structs(m['cfg']), idx.enums(m['cfg']), ret, rr); cd = core.canon_driver(idx.structs(m['cfg']), idx.enums(m['cfg']), ret, crate[j])
+                if cs != cd and cs not in ('STUCK', 'SHORT', 'BAD', 'UB', 'FUEL'):
+                    return {'assignment': asg, 'expected_by_spec': cs if isinstance(cs, str) else ['%s' % x for x in cs], 'impl_result': cd if isinstance(cd, str) else ['%s' % x for x in cd], 'model_lhs': l, 'confirmed_on_crate': True, 'cfg': m['cfg'], 'did': m['did'], 'function': f['key'], 'input_words': lines[j].split()[1:]}, errs
+            except core.SymErr: pass
+        if first_model is None and l != rr: first_model = {'assignment': asg, 'model_lhs': l, 'spec_rhs': rr}
+    return first_model, errs
 
 def confirm_on_crate(idx, lem, cx):
     """replay the failing assignment on the real crate through the driver"""
@@ -74,6 +97,19 @@ def report(pid, tier, seed, t0, res):
         viol.append((dict(b, kind='correspondence', theorem='model/implementation correspondence', how_found='differential run of the regenerated model (vm_compute, IEEE instance) against the crate built from the working tree'), False))
     for extra in res.get('extra_violations', []):
         viol.append(extra)
+    # coverage against the recorded baseline: a function that used to be covered and no longer is, is an unproved obligation
+    covered = sorted(set(res.get('covered_keys', [])))
+    if covered:
+        bp = '%s/coverage/%s.json' % (core.VERIF, pid)
+        if os.environ.get('VERIF_RECORD_COVERAGE') == '1':
+            os.makedirs(core.VERIF + '/coverage', exist_ok=True); json.dump({'property': pid, 'covered': covered}, open(bp, 'w'), indent=0)
+        else:
+            try: basec = set(json.load(open(bp))['covered'])
+            except (OSError, ValueError, KeyError): basec = set()
+            lost = sorted(basec - set(covered))
+            for k in lost[:10]:
+                viol.append(({'kind': 'unproved', 'theorem': 'coverage of %s' % k, 'function': k, 'how_found': 'the function is in the recorded coverage baseline of this property but is no longer covered (renamed, removed, or no longer translatable)'}, False))
+            res.setdefault('notes', {})['lost_coverage'] = lost[:50]
     nviol = 0
     for k in known:
         print('KNOWN-FINDING: property=%s %s' % (pid, k.get('what', '')))
